@@ -8,7 +8,7 @@ Definition timingsafe_bcmp_chk_body : cstmt := CSeq (CSeq (CAssign 5 (CVar 0)) (
 Definition timingsafe_bcmp_chk_ret : cexpr := CBin ONe (CVar 7) (CConst 0).
 Definition timingsafe_bcmp_chk_nvars : nat := 8%nat.
 (* variables: 0=b1, 1=b2, 2=len, 3=destbos, 4=srcbos, 5=p1, 6=p2, 7=i, 8=res, 9=done, 10=lt, 11=gt, 12=cmp *)
-Definition timingsafe_memcmp_chk_body : cstmt := CSeq (CSeq (CAssign 5 (CVar 0)) (CAssign 6 (CVar 1))) (CSeq (CSeq (CAssign 8 (CConst 0)) (CAssign 9 (CConst 0))) (CSeq (CAssign 7 (CConst 0)) (CWhile (CBin OAnd (CBin ONe (CBin OLt (CVar 7) (CVar 2)) (CConst 0)) (CBin ONe (CLNot (CVar 9)) (CConst 0))) (CSeq (CSeq (CAssign 10 (CBin OShr (CBin OSub (CLoad (CBin OAdd (CVar 5) (CVar 7))) (CLoad (CBin OAdd (CVar 6) (CVar 7)))) (CConst 8))) (CSeq (CAssign 11 (CBin OShr (CBin OSub (CLoad (CBin OAdd (CVar 6) (CVar 7))) (CLoad (CBin OAdd (CVar 5) (CVar 7)))) (CConst 8))) (CSeq (CAssign 12 (CBin OSub (CVar 10) (CVar 11))) (CSeq (CAssign 8 (CBin OOr (CVar 8) (CBin OAnd (CVar 12) (CNot (CVar 9))))) (CAssign 9 (CBin OOr (CVar 9) (CBin OOr (CVar 10) (CVar 11)))))))) (CAssign 7 (CBin OAdd (CVar 7) (CConst 1))))))).
+Definition timingsafe_memcmp_chk_body : cstmt := CSeq (CSeq (CAssign 5 (CVar 0)) (CAssign 6 (CVar 1))) (CSeq (CSeq (CAssign 8 (CConst 0)) (CAssign 9 (CConst 0))) (CSeq (CAssign 7 (CConst 0)) (CWhile (CBin OLt (CVar 7) (CVar 2)) (CSeq (CSeq (CAssign 10 (CBin OShr (CBin OSub (CLoad (CBin OAdd (CVar 5) (CVar 7))) (CLoad (CBin OAdd (CVar 6) (CVar 7)))) (CConst 8))) (CSeq (CAssign 11 (CBin OShr (CBin OSub (CLoad (CBin OAdd (CVar 6) (CVar 7))) (CLoad (CBin OAdd (CVar 5) (CVar 7)))) (CConst 8))) (CSeq (CAssign 12 (CBin OSub (CVar 10) (CVar 11))) (CSeq (CAssign 8 (CBin OOr (CVar 8) (CBin OAnd (CVar 12) (CNot (CVar 9))))) (CAssign 9 (CBin OOr (CVar 9) (CBin OOr (CVar 10) (CVar 11)))))))) (CAssign 7 (CBin OAdd (CVar 7) (CConst 1))))))).
 Definition timingsafe_memcmp_chk_ret : cexpr := CVar 8.
 Definition timingsafe_memcmp_chk_nvars : nat := 13%nat.
 Definition translation_complete : bool := true.
